@@ -33,6 +33,14 @@ type result struct {
 }
 
 func (b *bufRun) exec(dir string, args ...string) result {
+	res := b.execRaw(dir, args...)
+	b.count++
+	b.run.Eval()
+	return res
+}
+
+// execRaw runs the binary without touching the run's counters (safe to call concurrently).
+func (b *bufRun) execRaw(dir string, args ...string) result {
 	c := exec.Command(b.bin, args...)
 	c.Dir = dir
 	c.Env = append(os.Environ(), "HOME="+b.home, "BUF_CACHE_DIR="+filepath.Join(b.home, "cache"), "NO_COLOR=1")
@@ -46,8 +54,6 @@ func (b *bufRun) exec(dir string, args ...string) result {
 	} else if err != nil {
 		code = -1
 	}
-	b.count++
-	b.run.Eval()
 	return result{stdout.String(), stderr.String(), code}
 }
 
@@ -222,6 +228,10 @@ func partB(run *hx.Run, r *hx.Rand) {
 			}
 		}
 		partBWorkspace(run, b, cr, ws, dir, root, i, i%2 == 0)
+	}
+	// B2: the check configuration chosen for an image input, under a matrix of config shapes
+	for i, nb2 := 0, run.N(1, 8); i < nb2; i++ {
+		partBChecks(run, b, r.Fork(uint64(5000+i)), root, i)
 	}
 	run.Set("buf_process_runs", b.count)
 }
